@@ -1033,11 +1033,15 @@ where
         now: Instant,
         duration: Duration,
     ) -> impl Iterator<Item = Guard<K, V, LockableLruCacheConfig<Time>, S>> {
-        let cutoff = now - duration;
-        LockableMapImpl::lock_all_unlocked(this, &move |entry| {
-            let entry = entry.value_raw().expect("There must be a value, otherwise it cannot exist in the map as an 'unlocked' entry");
-            entry.last_unlocked <= cutoff
-        }).into_iter()
+        // If `now - duration` is not representable, no entry can have been unlocked for that long.
+        let guards = match now.checked_sub(duration) {
+            Some(cutoff) => LockableMapImpl::lock_all_unlocked(this, &move |entry| {
+                let entry = entry.value_raw().expect("There must be a value, otherwise it cannot exist in the map as an 'unlocked' entry");
+                entry.last_unlocked <= cutoff
+            }),
+            None => Vec::new(),
+        };
+        guards.into_iter()
     }
 
     #[cfg(test)]
